@@ -2400,7 +2400,8 @@ template< size_t L>
       FixedString< L>::append( const_iterator first, const_iterator last)
          noexcept
 {
-   if ((first == last) || (mLength == L))
+   // also catches first == last, first == end and last before first
+   if (!(first < last) || (mLength == L))
       return *this;
    const size_t  count = last - first;
    return appendImpl( &(*first), 0, count);
@@ -2841,7 +2842,9 @@ template< size_t L>
       FixedString< L>::replace( const_iterator first, const_iterator last,
          iterator first2, iterator last2) noexcept
 {
-   if ((first == cend()) || (first == last) || (first2 == last2))
+   // the test of the source range also catches first2 == end and last2 before
+   // first2
+   if ((first == cend()) || (first == last) || !(first2 < last2))
       return *this;
    const size_t  idx = first - cbegin();
    const size_t  count1 = (last == cend()) ? (mLength - idx) : (last - first);
